@@ -89,6 +89,13 @@ func VerifC19View() {
 		model[s+k] = y
 		c19Same(r, model[s:e], "write into the original; view")
 	}
+	// a view has its own length (v := b[s:e]; v = v[:t] leaves b alone), also when it spans the whole blob
+	t := verifInt64("t")
+	verifAssume(t >= 0)
+	verifAssume(t <= e-s)
+	verifAssert(Truncate(r, t) == nil, "Truncate of a view failed")
+	c19Same(r, model[s:s+t], "Truncate of a view; view")
+	c19Same(b, model, "Truncate of a view; original")
 }
 
 // VerifC19Set: Set(src, off) for arbitrary off.
